@@ -13,7 +13,7 @@ CONSTANTS
   Policies = {"seq", "conc"}
   ListFaults <- NoFaults
   MTs = {"image"}
-  WriteFaults = FALSE
+  WriteFaults = TRUE
   Depth = 0
 INVARIANTS TypeOK
 PROPERTIES UnionView TagConflictNeverSilent WriteBoth ReadsChangeNothing PoliciesAgree
